@@ -254,13 +254,13 @@ EXTRA_MORE = {
     'C02': [('bounded-offered-lengths', _mk('offered_lengths', 'sources of 0,1,2,5,8 examples; lazy apply (slice / eager filter / tile / shuffle), filter, catch, unbatch, reshuffle, local shuffle, prefetch, dynamic buckets, each also under map / batch / local shuffle: len() is refused or equals the iteration count')),
             ('bounded-numpy-indices', _mk('numpy_indices', '18 pipelines over 300 examples, 28 boundary indices, np.int8/uint8/int16 (quick) plus uint16/int32/int64 (thorough): ds[dtype(i)] equals ds[int(i)]'))],
     'C04': [_CATCH_MATRIX, ('bounded-prefetch-fuzz', _fuzz_prefetch_determinism), ('bounded-parallel-equals-sequential', _mk('parallel_equals_sequential', 'thread backend; n in {0,1,2,5,9} (.. 12), workers 1..2 (3), buffers 1,2,4 (1..7); map(num_workers), prefetch, seeded reshuffle / shared-reshuffle tile below prefetch, stacked; values and items; 3 epochs; lengths'))],
-    'C11': [('bounded-diskcache-kill-points', _mk('diskcache_kill_points', 'a forked child populating 12 examples is killed (SIGKILL) after 0, 20, 50, 90 ms (0..150 ms in 10 ms steps); reopen with reuse=True: all values correct, stored ones not recomputed')),
+    'C11': [('bounded-diskcache-random-histories', _mk('cache_random_histories_disk', 'as bounded-cache-random-histories of C10 over a disk cache, plus release-and-reopen (reuse=True) steps in the middle of the history')), ('bounded-diskcache-kill-points', _mk('diskcache_kill_points', 'a forked child populating 12 examples is killed (SIGKILL) after 0, 20, 50, 90 ms (0..150 ms in 10 ms steps); reopen with reuse=True: all values correct, stored ones not recomputed')),
             ('bounded-diskcache-lifecycles', _mk('diskcache_lifecycles', 'cache_dir given / None x clear x {copy outlives original, original outlives copy, no copy} x {0, 2, all of 4 examples read}; release by garbage collection; reopen with reuse=False (refused) and reuse=True (no recomputation)'))],
     'C13': [_VIEWS, ('bounded-determinism-fuzz', _fuzz_determinism), ('bounded-prefetch-determinism', _mk('parallel_equals_sequential', 'as for C04: seeded per-epoch reshuffles below prefetch / parallel map reproduce the sequential epochs'))],
     'C09': [('bounded-isolation-fuzz', _fuzz_isolation), ('bounded-snapshot-isolation', _mk('snapshot_isolation', 'from_dataset / new(src) / cache(lazy=False) of dict- and list-backed sources stored in pickle, copy, wu mode: isolated from later mutation of the original objects and of handed-out examples')),
             ('bounded-isolation-more', _mk('isolation_more', 'example shapes dict / tuple / namedtuple / list with mutable parts; pickle, copy, wu, memory and disk cache; mutation inside a running first-epoch loop, over items(), through a copy, after an aborted epoch, after the next example was requested; re-read by iteration, index, copy')),
             ('bounded-isolation', _mk('isolation', 'new/from_list in pickle, copy, wu mode and memory/disk cache; 7 access paths, miss and hit, nested in-place mutations'))],
-    'C10': [_KEYLESS, ('bounded-cache-histories', _mk('cache_histories', 'all access histories of length 2 (3 thorough) over 17 operations on a 4-example cache with a freshly random upstream; memory threshold crossed after 0..4 stores'))],
+    'C10': [('bounded-cache-random-histories', _mk('cache_random_histories', '150 (1500) random histories of 10..14 steps (VERIF_SEED) over a 5-example memory cache with a freshly random mutable upstream value: index of either sign, key, full / aborted iteration, items, slices, index lists, copies, single-thread prefetch, in-place mutation of what was handed out: every value equals the first one returned for its example, at most one upstream evaluation per example')), _KEYLESS, ('bounded-cache-histories', _mk('cache_histories', 'all access histories of length 2 (3 thorough) over 17 operations on a 4-example cache with a freshly random upstream; memory threshold crossed after 0..4 stores'))],
     'C14': [_CATCH_MATRIX, ('bounded-catch', _mk('catch_epochs', 'sources of 0..7 examples, all failing subsets up to size 3, single type / tuple / subclass, values and items, two epochs, reshuffled upstream over 4 epochs, lazy/eager/FilterException selection'))],
     'C15': [_VIEWS, ('bounded-split', _mk('split_exhaustive', 'all (n, k, i) with n <= 40 (300 thorough), k in [-1, n+2], shard indices {0, k-1, -1}'))],
     'C20': [('bounded-profiling-stage-counts', _mk('profiling_stage_counts', '10 linear element-wise pipelines (map / slice / shuffles / catch / prefetch(1) / cache / sort) over 3 and 6 (1,3,6,9) examples, two epochs: per-stage hits = examples delivered, profiled = identically seeded unprofiled twin')),
